@@ -49,6 +49,11 @@ INP_KINDS = ["box-box", "box-scalar", "box-elem", "elem-elem", "elem-scalar", "e
 VALS_QUICK = [-3, 0, 1, 2, 7, 0.5, 2.0, -1.5, 64]
 VALS_EXTRA = [-1, 3, 5, 10, 31, -8, 1 << 40, 0.25, -0.5, 3.5, 1e3, True, False]
 
+# coordinates of hand-built elements: [coordinate of the left element, coordinate of the right element].  They vary
+# independently of the values: equal / different, ints / tuples (points), a coordinate that equals the other
+# operand's value, a coordinate far outside any fiber
+COORD_PAIRS = [[3, 3], [1, 4], [7, 2], [0, 5], [[0, 1], [2, 3]], [[1, 2], [1, 2]], [2, 0], [1 << 20, 64]]
+
 # operator methods that exist on the unchanged tree: each must be evaluated (min_counts)
 _PAYLOAD_METHODS = ["add", "radd", "iadd", "sub", "rsub", "isub", "mul", "rmul", "imul", "truediv",
                     "lshift", "and", "or", "ilshift", "eq", "ne", "lt", "le", "gt", "ge"]
@@ -62,12 +67,17 @@ SPEC = {
     "rule": ("cases = (i) operator table: every operator of {+ - * / // << & |, == != < <= > >=} and every in-place form "
              "{+= -= *= /= //= &= |= <<=(assign)} x operand kind {box-box, box-scalar, scalar-box, elem-elem, elem-scalar, "
              "scalar-elem, elem-box, box-elem} x every ordered pair of a fixed value set (ints, floats, zero, negative, "
-             "large) + random int/float pairs; (ii) fibers: every ordered pair of 3-state (absent / explicit default / value) "
+             "large) + random int/float pairs; hand-built elements sit at coordinates chosen independently of their values "
+             "(every element-element value pair x operator under a fixed set of coordinate pairs: equal / different, ints / "
+             "tuples, a coordinate equal to the other value; one-element kinds rotate through the same set; random "
+             "coordinates for the random pairs); (ii) fibers: every ordered pair of 3-state (absent / explicit default / value) "
              "leaf fibers over {0..3} under + * += *=, every 3-state fiber x scalar x shape/active-range variant under "
              "f+s s+f f*s s*f f+=s f*=s, random longer / empty / disjoint fibers with non-zero defaults, explicit "
              "defaults, declared shape wider than the active range, partitions made by splitUniform, tensor-owned roots, "
              "depth-2 trees; (iii) kernel-style loops (dot product, z << (a & b) accumulate, element-wise loops over "
-             "iterated elements) with a raw-value oracle.  The icontract postconditions on the Payload/CoordPayload "
+             "iterated elements; every element of one fiber against every element of another fiber and a positional "
+             "zip walk of two fibers under + - * and the six comparisons, element-element, element-box and box-element; "
+             "element op= element over a positional walk) with a raw-value oracle.  The icontract postconditions on the Payload/CoordPayload "
              "operator methods are active in all three.  Non-trivial = operator-table case with at least one value pair "
              "on which the raw operator returns (does not raise); fiber case whose operands hold at least one stored "
              "element and whose expected result is non-empty; distinct = distinct case description."),
@@ -77,10 +87,18 @@ SPEC = {
                        "contract_evals:optable": 5000, "contract_evals:fiber": 10000, "contract_evals:kernel": 2000,
                        "optable_executions": 5000, "fiber_ops_checked": 10000, "inplace_identity_checked": 3000,
                        "exceptions_agreed": 200, "kernel_results_checked": 300,
-                       "ops_under_metrics_collection": 500}, **_MIN_CE),
+                       "ops_under_metrics_collection": 500,
+                       "elem_pairs:same-coord": 1000, "elem_pairs:distinct-coords": 3000,
+                       "elem_pairs:distinct-coords:equal-values": 300, "elem_single:coord-varied": 2000,
+                       "kernel_element_pairs": 800, "kernel_element_pairs:distinct-coords": 600,
+                       "kernel_element_pairs:distinct-coords:equal-values": 60}, **_MIN_CE),
         "thorough": dict({"evaluations": 40000, "oracle_evals": 600000, "contract_evals": 400000,
                           "contract_evals:optable": 50000, "contract_evals:fiber": 100000,
-                          "contract_evals:kernel": 20000, "fiber_ops_checked": 100000}, **_MIN_CE),
+                          "contract_evals:kernel": 20000, "fiber_ops_checked": 100000,
+                          "elem_pairs:same-coord": 5000, "elem_pairs:distinct-coords": 15000,
+                          "elem_pairs:distinct-coords:equal-values": 1000, "elem_single:coord-varied": 10000,
+                          "kernel_element_pairs": 8000, "kernel_element_pairs:distinct-coords": 6000,
+                          "kernel_element_pairs:distinct-coords:equal-values": 600}, **_MIN_CE),
     },
     "assumptions": [
         "fiber (+|+=) fiber: the right operand's leaf default is 0 - with a non-zero default the elementwise sum at coordinates absent from both operands (default+default) is not representable, and f+g / f+=g treat the right default differently at left-only coordinates",
@@ -88,6 +106,9 @@ SPEC = {
         "operator universe = the operators both class docstrings list (+ - * / // << & |, == != < <= > >=, <<= as "
         "assignment) with their reflected and in-place forms; an exception of the same type as the one the raw operator "
         "raises on the raw values (ZeroDivisionError, TypeError for float << int, ValueError for a negative shift) is agreement",
+        "the coordinate of an element is not an operand: the expected result of every operator on elements is computed "
+        "from the two values only, whatever coordinates (ints or tuples of ints) the elements sit at; the coordinate "
+        "carried by a result element is not judged",
         "results are compared after unboxing, with type-strict equality (1 and 1.0 differ); the box/no-box form of a "
         "value-returning result and non-aliasing of operands are C10's, not judged here",
         "fibers: ordered/unique leaf fibers with integer coordinates, all stored coordinates inside the shape; "
@@ -100,7 +121,8 @@ SPEC = {
         "format-U operands only in pairs whose defaults are both 0; kernel-style loops iterate compressed operands",
         "fiber-fiber operations executed while Metrics collection is on use a left operand with a declared shape (the "
         "populate trace model asserts an authoritative shape; metrics themselves are C15's); kernel-style loops under "
-        "Metrics collection use unowned operands (one common rank id, as the Metrics line model requires)",
+        "Metrics collection use unowned operands (one common rank id, as the Metrics line model requires); the loops "
+        "that iterate two fibers at once (element pairs, zip walks) run without Metrics collection",
         "depth-2 trees only for fiber-fiber forms with default 0 (scalar forms are leaf-only in the library's documentation); "
         "the left operand's root stores at least one sub-fiber (an unowned empty root cannot know that it is interior)",
     ],
@@ -243,6 +265,9 @@ def _make_value_contract(cls_name, sym, dunder, raw, reflected):
         how, exp = raw_apply(raw, b, a) if reflected else raw_apply(raw, a, b)
         got = val(result)
         shown = f"{b!r} {sym} {a!r}" if reflected else f"{a!r} {sym} {b!r}"
+        if isinstance(_ARGS[0], CoordPayload) and isinstance(_ARGS[1], CoordPayload):
+            shown += (f" [elements at coordinates {_ARGS[0].__dict__.get('coord')!r} and "
+                      f"{_ARGS[1].__dict__.get('coord')!r}]")
         if how == "exc":
             last.append((f"{cls_name}.{sym}:should-raise",
                          f"{shown} on the values raises {type(exp).__name__} but the {cls_name} operator returned {got!r}"))
@@ -349,15 +374,18 @@ def generate(rng, tier, shard, nshards, mon):
         for kind in BIN_KINDS:
             for a in vals:
                 if idx % nshards == shard:
-                    yield {"kind": "optable", "form": "binary", "op": sym, "okind": kind, "a": a, "bs": vals}
+                    yield {"kind": "optable", "form": "binary", "op": sym, "okind": kind, "a": a, "bs": vals,
+                           "coords": _coords_for(kind, idx)}
                 idx += 1
     for sym, _, _, _ in INP:
         for kind in INP_KINDS:
             for a in vals:
                 if idx % nshards == shard:
-                    yield {"kind": "optable", "form": "inplace", "op": sym, "okind": kind, "a": a, "bs": vals}
+                    yield {"kind": "optable", "form": "inplace", "op": sym, "okind": kind, "a": a, "bs": vals,
+                           "coords": _coords_for(kind, idx)}
                 idx += 1
     mon.exhaustive[f"operator-table-{len(vals)}x{len(vals)}-values"] = True
+    mon.exhaustive[f"element-element-table-{len(vals)}x{len(vals)}-values-x-{len(COORD_PAIRS)}-coordinate-pairs"] = True
     # (ii) fibers: all ordered pairs of 3-state leaf fibers over {0..3} ----------------------------
     vecs = list(itertools.product(range(3), repeat=4))
     for va in vecs:
@@ -386,6 +414,36 @@ def generate(rng, tier, shard, nshards, mon):
         yield _random_optable(rng)
 
 
+def _coords_for(okind, idx):
+    """Coordinate pairs of an operator-table case.  element o element: every pair of COORD_PAIRS is run for every
+    value pair; one element: the pairs are taken in rotation along the value list (start depends on the case)."""
+    if okind == "elem-elem":
+        return COORD_PAIRS
+    if "elem" not in okind:
+        return None
+    k = idx % len(COORD_PAIRS)
+    return COORD_PAIRS[k:] + COORD_PAIRS[:k]
+
+
+def _rand_coord(rng, v=None):
+    r = rng.random()
+    if r < 0.5:
+        return rng.randint(0, 12)
+    if r < 0.65:
+        return rng.choice([0, 1 << 31, 10 ** 12, 255])
+    if r < 0.75 and isinstance(v, int) and not isinstance(v, bool):
+        return v                    # a coordinate that happens to equal a value
+    return [rng.randint(0, 4) for _ in range(rng.choice([2, 2, 3]))]
+
+
+def _rand_coord_pairs(rng, a, bs):
+    out = []
+    for b in bs[:3]:
+        ca = _rand_coord(rng, b)
+        out.append([ca, ca if rng.random() < 0.25 else _rand_coord(rng, a)])
+    return out
+
+
 def _rand_value(rng):
     r = rng.random()
     if r < 0.45:
@@ -405,8 +463,12 @@ def _random_optable(rng):
     else:
         sym = rng.choice(INP)[0]
         kind = rng.choice(INP_KINDS)
-    return {"kind": "optable", "form": form, "op": sym, "okind": kind, "a": _rand_value(rng),
-            "bs": [_rand_value(rng) for _ in range(6)]}
+    a = _rand_value(rng)
+    bs = [_rand_value(rng) for _ in range(6)]
+    if kind == "elem-elem" and rng.random() < 0.5:
+        bs[rng.randrange(len(bs))] = a          # equal values (at whatever coordinates)
+    return {"kind": "optable", "form": form, "op": sym, "okind": kind, "a": a, "bs": bs,
+            "coords": _rand_coord_pairs(rng, a, bs) if "elem" in kind else None}
 
 
 def _rand_leaf(rng, lo, hi, default, p_present=0.5, p_explicit=0.15, floats=True):
@@ -450,6 +512,10 @@ def _rand_fiber_desc(rng, ext, default, lo=0, hi=None):
     return {"build": "tensor", "spec": spec, "default": default, "shape": ext + rng.randint(0, 3), "fmt": fmt}
 
 
+# kernel-style loops that combine elements handed out by iterating TWO fibers (elements at unrelated coordinates)
+_TWO_FIBER_ELEMENT_KERNELS = ("element-pairs", "element-zip", "element-zip-inplace")
+
+
 def _random_case(rng):
     r = rng.random()
     default = rng.choice([0, 0, 0, 0, 7, -1, 2.5])
@@ -477,13 +543,21 @@ def _random_case(rng):
         if not a:
             a = [[rng.randrange(e[0]), []]]     # an unowned empty root cannot know that it is interior
         return {"kind": "tree2", "a": a, "b": _rand_tree2(rng, e)}
-    k = rng.choice(["dot", "accumulate", "elements", "elements-inplace", "reduce"])
+    k = rng.choice(["dot", "accumulate", "elements", "elements-inplace", "reduce",
+                    "element-pairs", "element-pairs", "element-zip", "element-zip-inplace"])
     a, b = _rand_fiber_desc(rng, ext, 0), _rand_fiber_desc(rng, ext, 0)
+    if k in _TWO_FIBER_ELEMENT_KERNELS and rng.random() < 0.5:
+        # the second fiber lives at other coordinates (shifted / disjoint) and holds the same values in part
+        shift = rng.randint(1, 6)
+        src = a["spec"] if rng.random() < 0.6 else b["spec"]
+        b = {"build": "ctor", "spec": [[c + shift, (v if rng.random() < 0.7 else v + 1)] for c, v in src],
+             "default": 0, "shape": ext + shift + rng.randint(0, 2), "active": None}
     for d in (a, b):
         if "fmt" in d:
             d["fmt"] = "C"          # kernel loops iterate compressed operands (traversal modes are C07's)
     return {"kind": "kernel", "kernel": k, "a": a, "b": b, "s": rng.choice([2, -1, 3, 0.5]),
-            "metrics": rng.random() < 0.4 and a["build"] != "tensor" and b["build"] != "tensor"}
+            "metrics": (k not in _TWO_FIBER_ELEMENT_KERNELS and rng.random() < 0.4
+                        and a["build"] != "tensor" and b["build"] != "tensor")}
 
 
 def _rand_tree2(rng, e):
@@ -585,11 +659,16 @@ def run_case(case, mon):
 
 
 # -- operator table -----------------------------------------------------------------------
-def _mk(kind, v):
+def _as_coord(c):
+    """A coordinate from its JSON form (a point coordinate is a tuple)."""
+    return tuple(_as_coord(x) for x in c) if isinstance(c, (list, tuple)) else c
+
+
+def _mk(kind, v, coord=3):
     if kind == "box":
         return Payload(v)
     if kind == "elem":
-        return CoordPayload(3, Payload(v))
+        return CoordPayload(_as_coord(coord), Payload(v))
     return v
 
 
@@ -616,6 +695,66 @@ def _unsupported(e):
     return isinstance(e, TypeError) and ("unsupported operand type" in s or "not supported between" in s)
 
 
+def _optable_once(mon, sym, stem, fn, inplace, ka, kb, a, b, ca, cb, rhow, rexp):
+    """One execution of `x op y` / `x op= y`; the expected outcome (rhow, rexp) is the raw operator's on (a, b) -
+    it does not depend on the coordinates (ca, cb) the elements sit at."""
+    x, y = _mk(ka, a, ca), _mk(kb, b, cb)
+    owner = libname(x) or libname(y)
+    box = x.__dict__.get("payload") if isinstance(x, CoordPayload) else x
+    mon.count("optable_executions")
+    okind = f"{ka}-{kb}"
+    rel = ""
+    if ka == "elem" and kb == "elem":
+        rel = "same-coord" if _as_coord(ca) == _as_coord(cb) else "distinct-coords"
+        mon.count("elem_pairs:" + rel)
+        if rel == "distinct-coords" and a == b:
+            mon.count("elem_pairs:distinct-coords:equal-values")
+    elif ka == "elem" or kb == "elem":
+        mon.count("elem_single:coord-varied")
+    sa = f"elem@{_as_coord(ca)!r}({a!r})" if ka == "elem" else f"{ka}({a!r})"
+    sb = f"elem@{_as_coord(cb)!r}({b!r})" if kb == "elem" else f"{kb}({b!r})"
+    shown = f"{sa} {sym} {sb}"
+    try:
+        res = fn(x, y)
+    except C11ContractViolation:
+        return                      # reported by the postcondition
+    except BaseException as e:      # noqa
+        if rhow == "exc" and type(e) is type(rexp):
+            mon.count("exceptions_agreed")
+            mon.count("oracle_evals")
+            return
+        if _unsupported(e):
+            cls, form = _blame(x, y, stem[1:] if inplace else stem, inplace)
+            key = f"{cls}:missing-operator:{sym if form == 'inplace' else sym.rstrip('=') if inplace else sym}:{form}"
+        else:
+            key = f"{owner}.{sym}:raised:{type(e).__name__}"
+        want = f"raises {type(rexp).__name__}" if rhow == "exc" else f"gives {rexp!r}"
+        mon.violation(key, f"{shown} raised {type(e).__name__}: {e}; the same operator on the values {want}")
+        return
+    if rhow == "exc":
+        mon.check(False, f"{owner}.{sym}:should-raise",
+                  f"{shown} returned {val(res)!r}; the values raise {type(rexp).__name__}")
+        return
+    if inplace:
+        mon.count("inplace_identity_checked")
+        if res is None:
+            mon.check(False, f"{owner}.{sym}:returns-None", f"{shown}: the in-place form rebinds the name to None")
+        else:
+            mon.check(res is x, f"{owner}.{sym}:rebinds-new-box",
+                      f"{shown}: the in-place form rebinds the name to a new {type(res).__name__} "
+                      f"(original box still holds {val(x)!r}, expected {rexp!r})")
+        if isinstance(x, CoordPayload):
+            mon.check(x.__dict__.get("payload") is box, f"{owner}.{sym}:payload-box-replaced",
+                      f"{shown}: the element's payload box was replaced, not updated")
+        if res is x or res is None:
+            mon.check(same(val(box), rexp), f"{owner}.{sym}:value",
+                      f"{shown}: the box holds {val(box)!r} afterwards, expected {rexp!r}")
+    else:
+        got = val(res)
+        mon.check(same(got, rexp), f"{owner}.{sym}:value", f"{shown} gave {got!r}, the values give {rexp!r}")
+        mon.state((sym, okind, rel, repr(rexp)) if rel else (sym, okind, repr(rexp)))
+
+
 def _run_optable(case, mon):
     sym, okind, a = case["op"], case["okind"], case["a"]
     ka, kb = okind.split("-")
@@ -626,55 +765,16 @@ def _run_optable(case, mon):
         stem, fn = (BIN_BY_SYM.get(sym) or CMP_BY_SYM[sym])
         raw = fn
     any_ok = False
-    for b in case["bs"]:
+    both_elems = ka == "elem" and kb == "elem"
+    coords = case.get("coords") or [[3, 3]]
+    for j, b in enumerate(case["bs"]):
         if sym == "<<" and isinstance(b, int) and b > 128:
             continue                    # guard: shift counts stay small (the raw result must be representable)
-        x, y = _mk(ka, a), _mk(kb, b)
-        owner = libname(x) or libname(y)
-        box = x.__dict__.get("payload") if isinstance(x, CoordPayload) else x
         rhow, rexp = raw_apply(raw, a, b)
         any_ok = any_ok or rhow == "ok"
-        mon.count("optable_executions")
-        shown = f"{ka}({a!r}) {sym} {kb}({b!r})"
-        try:
-            res = fn(x, y)
-        except C11ContractViolation:
-            continue                    # reported by the postcondition
-        except BaseException as e:      # noqa
-            if rhow == "exc" and type(e) is type(rexp):
-                mon.count("exceptions_agreed")
-                mon.count("oracle_evals")
-                continue
-            if _unsupported(e):
-                cls, form = _blame(x, y, stem[1:] if inplace else stem, inplace)
-                key = f"{cls}:missing-operator:{sym if form == 'inplace' else sym.rstrip('=') if inplace else sym}:{form}"
-            else:
-                key = f"{owner}.{sym}:raised:{type(e).__name__}"
-            want = f"raises {type(rexp).__name__}" if rhow == "exc" else f"gives {rexp!r}"
-            mon.violation(key, f"{shown} raised {type(e).__name__}: {e}; the same operator on the values {want}")
-            continue
-        if rhow == "exc":
-            mon.check(False, f"{owner}.{sym}:should-raise",
-                      f"{shown} returned {val(res)!r}; the values raise {type(rexp).__name__}")
-            continue
-        if inplace:
-            mon.count("inplace_identity_checked")
-            if res is None:
-                mon.check(False, f"{owner}.{sym}:returns-None", f"{shown}: the in-place form rebinds the name to None")
-            else:
-                mon.check(res is x, f"{owner}.{sym}:rebinds-new-box",
-                          f"{shown}: the in-place form rebinds the name to a new {type(res).__name__} "
-                          f"(original box still holds {val(x)!r}, expected {rexp!r})")
-            if isinstance(x, CoordPayload):
-                mon.check(x.__dict__.get("payload") is box, f"{owner}.{sym}:payload-box-replaced",
-                          f"{shown}: the element's payload box was replaced, not updated")
-            if res is x or res is None:
-                mon.check(same(val(box), rexp), f"{owner}.{sym}:value",
-                          f"{shown}: the box holds {val(box)!r} afterwards, expected {rexp!r}")
-        else:
-            got = val(res)
-            mon.check(same(got, rexp), f"{owner}.{sym}:value", f"{shown} gave {got!r}, the values give {rexp!r}")
-            mon.state((sym, okind, repr(rexp)))
+        # element o element: every coordinate pair of the case; one element: the pairs in rotation
+        for ca, cb in (coords if both_elems else [coords[j % len(coords)]]):
+            _optable_once(mon, sym, stem, fn, inplace, ka, kb, a, b, ca, cb, rhow, rexp)
     if any_ok:
         mon.nontrivial()
 
@@ -886,6 +986,23 @@ def _run_tree2(case, mon):
 
 
 # -- kernel-style loops ----------------------------------------------------------------------
+# what a loop body does with two elements ea, eb (and with one of them unpacked to its box): the operators
+# CoordPayload documents for element o element / element o box
+_PAIR_OP_NAMES = ["elem+elem", "elem-elem", "elem*elem", "elem==elem", "elem!=elem", "elem<elem", "elem<=elem",
+                  "elem>elem", "elem>=elem", "elem==box", "elem!=box", "box==elem", "box!=elem", "elem+box", "box*elem"]
+
+
+def _elem_pair_ops(ea, eb):
+    pa, pb = ea.payload, eb.payload
+    return (ea + eb, ea - eb, ea * eb, ea == eb, ea != eb, ea < eb, ea <= eb, ea > eb, ea >= eb,
+            ea == pb, ea != pb, pa == eb, pa != eb, ea + pb, pa * eb)
+
+
+def _raw_pair_ops(va, vb):
+    return (va + vb, va - vb, va * vb, va == vb, va != vb, va < vb, va <= vb, va > vb, va >= vb,
+            va == vb, va != vb, va == vb, va != vb, va + vb, va * vb)
+
+
 def _run_kernel(case, mon):
     k = case["kernel"]
     a, _, keep_a = build_fiber(case["a"])
@@ -931,6 +1048,32 @@ def _run_kernel(case, mon):
             for el in a:
                 el -= 1
             return a, None
+        if k == "element-pairs":
+            # every element of a against every element of b: the coordinates are unrelated to the values
+            out = []
+            for ea in a:
+                for eb in b:
+                    out.append((ea.coord, eb.coord) + tuple(val(r) for r in _elem_pair_ops(ea, eb)))
+            return out, None
+        if k == "element-zip":
+            # walk the two fibers in lock step by position (not by coordinate)
+            out = []
+            agree = differ = 0
+            for ea, eb in zip(a, b):
+                out.append((ea.coord, eb.coord) + tuple(val(r) for r in _elem_pair_ops(ea, eb)))
+                if ea == eb:
+                    agree += 1
+                if ea != eb:
+                    differ += 1
+            return out, (agree, differ)
+        if k == "element-zip-inplace":
+            for ea, eb in zip(a, b):
+                ea += eb
+            for ea, eb in zip(a, b):
+                ea *= eb
+            for ea, eb in zip(a, b):
+                ea -= eb
+            return a, None
         raise ValueError(k)
     ok, res = _call(mon, what, body, bool(case.get("metrics")))
     if not ok:
@@ -972,6 +1115,52 @@ def _run_kernel(case, mon):
                                            for o, e in zip(out, exp))
         mon.check(okv, f"{what}:value", f"element-wise operators over iterated elements gave {out}, expected {exp}")
         nt = bool(exp)
+    elif k in ("element-pairs", "element-zip"):
+        out, counts = res
+        la, lb = sorted(na), sorted(nb)
+        pairs = [(ca, cb) for ca in la for cb in lb] if k == "element-pairs" else list(zip(la, lb))
+        exp = [(ca, cb) + tuple(_raw_pair_ops(ma[ca], mb[cb])) for ca, cb in pairs]
+        mon.count("kernel_element_pairs", len(pairs))
+        mon.count("kernel_element_pairs:distinct-coords", sum(1 for ca, cb in pairs if ca != cb))
+        mon.count("kernel_element_pairs:distinct-coords:equal-values",
+                  sum(1 for ca, cb in pairs if ca != cb and ma[ca] == mb[cb]))
+        if mon.check([o[:2] for o in out] == pairs, f"{what}:pairing",
+                     f"iterating the two fibers paired coordinates {[o[:2] for o in out]}, expected {pairs}"):
+            # one verdict per operator (column), over all element pairs
+            for i, name in enumerate(_PAIR_OP_NAMES):
+                bad = [(o[0], o[1], o[2 + i], e[2 + i]) for o, e in zip(out, exp) if not same(o[2 + i], e[2 + i])]
+                if bad:
+                    ca, cb, g, e = bad[0]
+                    mon.violation(f"{what}:{name}:value",
+                                  f"{name} on the elements at {ca} (value {ma[ca]!r}) and {cb} (value {mb[cb]!r}) of two "
+                                  f"fibers gave {g!r}, the values give {e!r} ({len(bad)} such pairs)")
+                else:
+                    mon.count("oracle_evals")
+        if counts is not None:
+            ea = sum(1 for ca, cb in pairs if ma[ca] == mb[cb])
+            ed = sum(1 for ca, cb in pairs if ma[ca] != mb[cb])
+            mon.check(counts == (ea, ed), f"{what}:agree-count",
+                      f"positional walk counted {counts[0]} equal / {counts[1]} unequal element pairs, the values give "
+                      f"{ea} / {ed} (a {sorted(ma.items())}, b {sorted(mb.items())})")
+        nt = bool(pairs)
+    elif k == "element-zip-inplace":
+        got, _ = raw_map(a)
+        mb2, _ = raw_map(b)
+        # each pass pairs, by position, the elements that are non-empty at that moment; b never changes
+        cur = dict(ma)
+        lb = sorted(nb)
+        for step in ("+", "*", "-"):
+            la = [c for c in sorted(cur) if cur[c] != 0]
+            for ca, cb in zip(la, lb):
+                cur[ca] = cur[ca] + mb[cb] if step == "+" else cur[ca] * mb[cb] if step == "*" else cur[ca] - mb[cb]
+                mon.count("kernel_element_pairs")
+                if ca != cb:
+                    mon.count("kernel_element_pairs:distinct-coords")
+        mon.check(set(got) == set(cur) and all(same(got[c], cur[c]) for c in cur), f"{what}:value",
+                  f"element op= element over a positional walk of two fibers left {got}, expected {cur}")
+        mon.check(mb2 == mb and all(same(mb2[c], mb[c]) for c in mb), f"{what}:other-operand-changed",
+                  f"element op= element changed the right-hand fiber: {mb} -> {mb2}")
+        nt = bool(na and nb)
     else:
         got, _ = raw_map(a)
         # each pass visits the elements that are non-empty at that moment
